@@ -447,6 +447,11 @@ class WrapperMixin(object):
         docs = {key: value.replace("\t", " ").replace("\f", " ")
                 if isinstance(value, str) else value
                 for key, value in docs.items()}
+        if self.doxygen_end.endswith("*/"):
+            # The text must not end the comment it is written into.
+            docs = {key: value.replace("*/", "* /")
+                    if isinstance(value, str) else value
+                    for key, value in docs.items()}
         if "brief" in docs:
             # Every line of the text needs the comment prefix.
             lines = docs["brief"].split("\n")
